@@ -14,6 +14,7 @@ import (
 	"strconv"
 	"strings"
 	"sync"
+	"sync/atomic"
 	"time"
 
 	"github.com/maruel/panicparse/v2/stack"
@@ -43,12 +44,36 @@ var routinesRe = regexp.MustCompile(`Signature #\d+: (\d+) routines?:`)
 
 // bucketSizes extracts the member counts from the <h1> elements of a page.
 func bucketSizes(doc []byte) (sum, n int) {
+	sum, n, _ = bucketSizesWith(doc, "")
+	return
+}
+
+// verifMarkerPark is where marker goroutines wait: a request issued after a marker entered it must find the marker
+// accounted for on the page it gets.
+//
+//go:noinline
+func verifMarkerPark(started, stop chan struct{}) {
+	markerCount.Add(1)
+	close(started)
+	<-stop
+}
+
+var markerCount atomic.Int64
+
+// bucketSizesWith also returns how many goroutines the buckets whose text mentions needle account for.
+func bucketSizesWith(doc []byte, needle string) (sum, n, with int) {
 	z := xhtml.NewTokenizer(bytes.NewReader(doc))
 	inH1 := false
+	cur, curHas := 0, false
 	for {
 		tt := z.Next()
 		if tt == xhtml.ErrorToken {
 			return
+		}
+		if needle != "" && tt == xhtml.TextToken && !inH1 && !curHas && cur != 0 && bytes.Contains(z.Text(), []byte(needle)) {
+			curHas = true
+			with += cur
+			continue
 		}
 		switch tt {
 		case xhtml.StartTagToken:
@@ -65,6 +90,7 @@ func bucketSizes(doc []byte) (sum, n int) {
 					k, _ := strconv.Atoi(string(m[1]))
 					sum += k
 					n++
+					cur, curHas = k, false
 				}
 			}
 		}
@@ -239,6 +265,8 @@ func runC20(r *core.Run) {
 	}
 	clients := r.N(8, 32)
 	perClient := r.N(30, 40)
+	stopMarkers := make(chan struct{})
+	markerBase := markerCount.Load()
 	var wg sync.WaitGroup
 	for cidx := 0; cidx < clients; cidx++ {
 		wg.Add(1)
@@ -255,6 +283,11 @@ func runC20(r *core.Run) {
 			slow := cidx%4 == 0
 			for k := 0; k < perClient; k++ {
 				spec := genReq(rr)
+				// a goroutine that exists before the request is issued: the page answering it has to account for it
+				started := make(chan struct{})
+				go verifMarkerPark(started, stopMarkers)
+				<-started
+				markersBefore := int(markerCount.Load() - markerBase)
 				req, _ := http.NewRequest(spec.Method, srv.URL+"/debug/panicparse?"+spec.Query, nil)
 				resp, err := client.Do(req)
 				r.Eval(1)
@@ -298,10 +331,24 @@ func runC20(r *core.Run) {
 				}
 				headers, _ := strconv.Atoi(resp.Header.Get("X-Verif-Headers"))
 				parsed, _ := strconv.Atoi(resp.Header.Get("X-Verif-Parsed"))
-				if headers == 0 {
-					r.Broken("webstack hook did not report the captured dump")
+				if !bytes.HasPrefix(body, []byte("<!DOCTYPE html>")) || bytes.Count(body, []byte(`<div class="bottom-padding"></div>`)) != 1 || !bytes.HasSuffix(bytes.TrimSpace(body), []byte(`<div class="bottom-padding"></div>`)) {
+					r.Violation("page-not-one-document", fmt.Sprintf("GET ?%s: the body (%d bytes) is not one complete page (doctype first, the closing bottom-padding div exactly once at the end)", spec.Query, len(body)), "req", spec)
 					continue
 				}
+				if rawLen, _ := strconv.Atoi(resp.Header.Get("X-Verif-RawLen")); rawLen >= 1<<20 {
+					// at or above the smallest valid maxmem the capture may legitimately be cut short
+					r.Count("pages_of_possibly_cut_captures", 1)
+				} else if _, _, with := bucketSizesWith(body, "verifMarkerPark"); with < markersBefore {
+					r.Violation("page-misses-goroutines-alive-before-the-request", fmt.Sprintf("GET ?%s: %d marker goroutines were waiting in verifMarkerPark before the request was issued, the page accounts for %d of them", spec.Query, markersBefore, with), "req", spec)
+					continue
+				}
+				r.Count("pages_checked_against_markers", 1)
+				if headers == 0 {
+					// the capture hook was not reached for this request: nothing more to compare the page with
+					r.Count("pages_without_capture_report", 1)
+					continue
+				}
+				r.Count("pages_with_capture_report", 1)
 				if parsed != headers {
 					r.Violation("capture-count", fmt.Sprintf("the dump this request captured has %d goroutine headers, %d parsed", headers, parsed), "req", spec)
 					continue
@@ -326,8 +373,12 @@ func runC20(r *core.Run) {
 	}
 	wg.Wait()
 	close(stopChurn)
+	close(stopMarkers)
 	cw.Wait()
 	world.stop()
+	if r.Counter("pages_with_capture_report") == 0 {
+		r.Broken("webstack hook never reported a captured dump")
+	}
 	// Large process: a dump bigger than the handler's initial 1 MiB buffer, with maxmem values that are
 	// sufficient for it but are not a power-of-two multiple of 1 MiB (the grow-and-retry loop must use them fully).
 	{
